@@ -27,6 +27,10 @@ CHECKS = {
              'history to a depth bound (append, remove, re-append, new/remove group, set state/label/colour, merge, clear, '
              'session save+restore, hub delay blocks) and random deep walks; each is executed on a real DataCollection and the '
              'projection (dc.data, subset_groups, d.subsets, g.subsets, masks, labels, colours) compared after every step. '
+             'CollectionImpl.tla describes HOW the code keeps membership (add/delete messages, group handlers, the hub queue under '
+             'delay blocks): TLC proves the membership invariant for the repaired design, refutes the two designs of the pinned '
+             'commit, and its behaviours are replayed comparing Data.subsets / SubsetGroup.subsets / queue after every step, also '
+             'inside delay blocks. '
              'In the other direction the DataCollections of the repository\'s own tests are recorded by an external tracer (every '
              'append/remove/new_subset_group/remove_subset_group with the membership projected after the call, session restores '
              'observed) and validated by TLC against Trace_Collection.tla, which reuses Collection.tla and requires the C06 membership '
@@ -221,17 +225,20 @@ CHECKS = {
         technique='TLA+ spec as enumerator/oracle of what is carried + replay through real exporters and readers',
         design='7/C19'),
     'C18': dict(
-        text='Viewer.tla part 1: the layer set a viewer must hold as a function of the collection, the live subset groups and the '
-             'datasets given to it; TLC enumerates every history of <= 5 collection/viewer operations (append, remove, re-append, '
-             'groups, add/remove data on the viewer, hub delay blocks, save+restore of the viewer) plus random walks; each runs on a '
-             'real base Viewer (exhaustively) and on the four matplotlib viewers (sample + walks, headless Agg) and viewer.layers / '
-             'viewer.state.layers are compared with the required set and with each other after every step; the image viewer\'s axes are '
-             'checked to be distinct pixel axes of its reference data. Part 2: ComponentIDComboHelper - choices and selection as a '
-             'function of the datasets\' ordered attributes, their kinds and the kind filters, under attribute add/remove/reorder, '
-             'dataset add/remove, filter changes and explicit selections (every history of <= 4 operations).',
-        note='Bounded: 2-3 datasets, 2-3 groups; viewer operations only outside hub delay blocks; the picker may select any remaining '
-             'choice when its selection disappears. Two open known findings (KF-C18-1, KF-C18-2). Qt/Jupyter front-ends are other repositories; '
-             'ManualDataComboHelper/DataCollectionComboHelper are not driven yet.',
+        text='Viewer.tla part 1: the layer set a viewer must hold (dataset layers, one layer per group subset and per stand-alone '
+             'subset) under collection operations, subset groups, stand-alone subsets, add/remove data on the viewer, removal and '
+             'addition of single layers, hub delay blocks and save+restore of the viewer; TLC enumerates every history of <= 5 '
+             'operations over two datasets (base Viewer, exhaustively), every history of <= 6 operations over one dataset (each of '
+             'the four matplotlib viewers, headless Agg) plus samples and random walks; viewer.layers / viewer.state.layers are '
+             'compared with the required set and with each other after every step, every selection property of the viewer state must '
+             'select one of its choices and offer nothing of datasets outside the collection, the image viewer must offer the axes of '
+             'its reference dataset and select two distinct ones. Part 2: ComponentIDComboHelper - choices and selection as a '
+             'function of the datasets\' ordered attributes, their kinds and the kind filters (every history of <= 4 operations). '
+             'Part 3 (DataPickers.tla): DataCollectionComboHelper and ManualDataComboHelper follow the collection (append, remove, '
+             're-append, relabel, manual append/remove, selections, hub delay blocks; every history of <= 5 operations).',
+        note='Bounded: 1-3 datasets, 1-3 groups; viewer operations only outside hub delay blocks; sessions with stand-alone subsets are '
+             'not saved/restored in the model (a restore turns them into groups by design); a picker may select any remaining '
+             'choice when its selection disappears. Two open known findings (KF-C18-1, KF-C18-2). Qt/Jupyter front-ends are other repositories.',
         technique='TLA+ spec + TLC + behaviour replay into real viewers and combo helpers',
         design='7/C18'),
 }
